@@ -1,9 +1,781 @@
 """firing variants: one instance broken by a small text edit of the current
-source.  old must occur exactly once in the file (else: stale witness)."""
+source.  ``old`` must occur exactly once in the file (else: stale witness).
+Every variant still compiles; ``props`` lists the properties whose check must
+report it."""
 
 MUTANTS = []
+CONTROLS = []      # small edits that do NOT break the property: every check must stay silent
+
+
+def C(id, props, file, old, new, what):
+    CONTROLS.append({'id': id, 'props': props if isinstance(props, (list, tuple)) else [props],
+                     'file': 'glom/' + file, 'old': old, 'new': new, 'what': what})
 
 
 def M(id, props, file, old, new, what):
     MUTANTS.append({'id': id, 'props': props if isinstance(props, (list, tuple)) else [props],
                     'file': 'glom/' + file, 'old': old, 'new': new, 'what': what})
+
+
+# --------------------------------------------------------------------------- C01
+M('c01-idx-plus1', 'C01', 'core.py',
+  "            except AttributeError as e:\n                pae = PathAccessError(e, Path(_t), i // 2)",
+  "            except AttributeError as e:\n                pae = PathAccessError(e, Path(_t), i // 2 + 1)",
+  "part index of a failed attribute access is off by one")
+M('c01-idx-halfup', 'C01', 'core.py',
+  "            except (KeyError, IndexError, TypeError) as e:\n                pae = PathAccessError(e, Path(_t), i // 2)",
+  "            except (KeyError, IndexError, TypeError) as e:\n                pae = PathAccessError(e, Path(_t), (i + 1) // 2)",
+  "part index of a failed item access uses (i+1)//2")
+M('c01-narrow-P', 'C01', 'core.py',
+  "                cur = get(cur, arg)\n            except Exception as e:",
+  "                cur = get(cur, arg)\n            except (KeyError, IndexError, AttributeError) as e:",
+  "'P' access no longer converts TypeError/ValueError of a handler")
+M('c01-fresh-exc', 'C01', 'core.py',
+  "            except Exception as e:\n                pae = PathAccessError(e, Path(_t), i // 2)\n        elif op in 'xX':",
+  "            except Exception as e:\n                pae = PathAccessError(KeyError(arg), Path(_t), i // 2)\n        elif op in 'xX':",
+  "the error carries a new exception instead of the caught one")
+M('c01-copy', 'C01', 'core.py',
+  "                cur = get(cur, arg)\n",
+  "                cur = copy.copy(get(cur, arg))\n",
+  "the accessed object is copied")
+M('c01-raise-late', 'C01', 'core.py',
+  "        if pae:\n            raise pae\n        i += 2\n",
+  "        i += 2\n    if pae:\n        raise pae\n",
+  "the access error is raised only after the loop (later segments are touched)")
+M('c01-bound-minus', 'C01', 'core.py',
+  "    while i < fetch_till:\n        op, arg = t_path[i], t_path[i + 1]",
+  "    while i < fetch_till - 1:\n        op, arg = t_path[i], t_path[i + 1]",
+  "the interpreter loop stops one position early")
+M('c01-bound-all-roots', 'C01', 'core.py',
+  "    fetch_till = len(t_path)\n    root = t_path[0]",
+  "    fetch_till = len(t_path) - 2\n    root = t_path[0]",
+  "the last step is swallowed for every root")
+M('c01-split-limit', 'C01', 'core.py',
+  "            segs = text.split('.')",
+  "            segs = text.split('.', 8)",
+  "text paths longer than 9 segments keep an unsplit tail")
+M('c01-filter-empty', 'C01', 'core.py',
+  "                    _T_STARSTAR if seg == '**' else seg\n                    for seg in segs]",
+  "                    _T_STARSTAR if seg == '**' else seg\n                    for seg in segs if seg]",
+  "empty segments are dropped from text paths")
+M('c01-seq-noint', 'C01', 'core.py',
+  "def _get_sequence_item(target, index):\n    return target[int(index)]",
+  "def _get_sequence_item(target, index):\n    return target[index]",
+  "sequence indexes are no longer integer-coerced")
+M('c01-hier', ['C01', 'C04'], 'core.py',
+  "class PathAccessError(GlomError, AttributeError, KeyError, IndexError):",
+  "class PathAccessError(GlomError, AttributeError, KeyError):",
+  "PathAccessError is no longer an IndexError")
+M('c01-smagic-idx', 'C01', 'core.py',
+  "        err = PathAccessError(e, Path(_t), 0)  # always only one level depth, hence 0",
+  "        err = PathAccessError(e, Path(_t), 1)  # always only one level depth, hence 0",
+  "a missing first S segment is reported as part 1")
+C('ctl-len', ['C01', 'C18'], 'core.py',
+  "        return (len(self.path_t.__ops__) - 1) // 2",
+  "        return len(self.path_t.__ops__) // 2",
+  "len(Path) computed as len(ops)//2 (same value today, wrong relation to the layout is tolerated) -- control")
+M('c01-values-slice', ['C01'], 'core.py',
+  "        cur_t_path = self.path_t.__ops__\n        return cur_t_path[2::2]",
+  "        cur_t_path = self.path_t.__ops__\n        return cur_t_path[1::2]",
+  "Path.values() returns the op codes")
+
+# --------------------------------------------------------------------------- C02
+M('c02-drop-mod', 'C02', 'core.py',
+  "                elif op == '%':\n                    cur = cur % arg\n",
+  "",
+  "the % branch is removed: T % n is silently skipped")
+M('c02-swap-sub', 'C02', 'core.py',
+  "                    cur = cur - arg",
+  "                    cur = arg - cur",
+  "operands of - are swapped")
+M('c02-pow-mul', 'C02', 'core.py',
+  "                    cur = cur ** arg",
+  "                    cur = cur * arg",
+  "** is replayed as *")
+M('c02-arg-cur', 'C02', 'core.py',
+  "        arg = arg_val(target, arg, scope)\n        if op == '.':",
+  "        arg = arg_val(cur, arg, scope)\n        if op == '.':",
+  "nested T arguments are evaluated against the running value")
+M('c02-call-cur', 'C02', 'core.py',
+  "            cur = scope[glom](\n                target, Call(cur, args, kwargs), scope)",
+  "            cur = scope[glom](\n                cur, Call(cur, args, kwargs), scope)",
+  "call arguments are evaluated against the running value")
+M('c02-arith-nocatch', 'C02', 'core.py',
+  "            except (TypeError, ZeroDivisionError) as e:",
+  "            except TypeError as e:",
+  "ZeroDivisionError escapes unpositioned")
+M('c02-argmode-call', ['C02', 'C08'], 'core.py',
+  "        if type(spec) in (tuple, set, frozenset):  # cannot contain themselves\n            result = type(spec)([recur(val) for val in spec])",
+  "        if type(spec) in (tuple, set, frozenset):  # cannot contain themselves\n            result = type(spec)([recur(val) for val in spec])\n        elif callable(spec):\n            result = spec(target)",
+  "argument mode calls callables")
+M('c02-invert-neg', 'C02', 'core.py',
+  "                elif op == '~':\n                    cur = ~cur",
+  "                elif op == '~':\n                    cur = -cur",
+  "~ is replayed as unary minus")
+
+# --------------------------------------------------------------------------- C03
+M('c03-dict-noskip', 'C03', 'core.py',
+  "        val = scope[glom](target, subspec, scope)\n        if val is SKIP:\n            continue\n        if type(field) in (Spec, TType):",
+  "        val = scope[glom](target, subspec, scope)\n        if type(field) in (Spec, TType):",
+  "SKIP is stored into dict results")
+M('c03-list-stop-continue', 'C03', 'core.py',
+  "        if val is STOP:\n            break\n        ret.append(val)",
+  "        if val is STOP:\n            continue\n        ret.append(val)",
+  "STOP no longer ends a list spec")
+M('c03-tuple-target', 'C03', 'core.py',
+  "        nxt = scope[glom](res, subspec, scope)",
+  "        nxt = scope[glom](target, subspec, scope)",
+  "tuple steps all receive the original target")
+M('c03-dict-sorted', 'C03', 'core.py',
+  "    for field, subspec in spec.items():\n        val = scope[glom](target, subspec, scope)",
+  "    for field, subspec in sorted(spec.items(), key=repr):\n        val = scope[glom](target, subspec, scope)",
+  "dict fields are evaluated in sorted order")
+M('c03-eval-twice', 'C03', 'core.py',
+  "        val = scope[glom](target, subspec, scope)\n        if val is SKIP:\n            continue\n        if type(field) in (Spec, TType):",
+  "        if scope[glom](target, subspec, scope) is SKIP:\n            continue\n        val = scope[glom](target, subspec, scope)\n        if type(field) in (Spec, TType):",
+  "dict sub-specs are evaluated twice")
+M('c03-coalesce-nobreak', 'C03', 'core.py',
+  "                if not self.skip_func(ret):\n                    break\n                skipped.append(ret)",
+  "                if not self.skip_func(ret):\n                    pass\n                skipped.append(ret)",
+  "Coalesce keeps evaluating after a success")
+M('c03-coalesce-exc', 'C03', 'core.py',
+  "            except self.skip_exc as e:\n                skipped.append(e)",
+  "            except Exception as e:\n                skipped.append(e)",
+  "Coalesce swallows every exception, not just skip_exc")
+M('c03-dict-plain', 'C03', 'core.py',
+  "    ret = type(spec)()  # TODO: works for dict + ordereddict, but sufficient for all?",
+  "    ret = {}  # TODO: works for dict + ordereddict, but sufficient for all?",
+  "dict specs always build a plain dict")
+M('c03-auto-callable-scope', 'C03', 'core.py',
+  "    elif callable(spec):\n        return spec(target)\n\n    raise TypeError('expected spec to be dict",
+  "    elif callable(spec):\n        return spec(scope[T])\n\n    raise TypeError('expected spec to be dict",
+  "callables receive the frame's recorded target instead of the current one")
+M('c03-glom-parent-scope', ['C03', 'C07'], 'core.py',
+  "            return spec.glomit(target, scope)\n",
+  "            return spec.glomit(target, parent)\n",
+  "glomit specs run in the parent frame")
+
+# --------------------------------------------------------------------------- C04
+M('c04-evaluator-wraps', 'C04', 'core.py',
+  "                cur_scope = cur_scope[UP]\n        raise\n",
+  "                cur_scope = cur_scope[UP]\n        raise GlomError(str(e))\n",
+  "the evaluator replaces the exception")
+M('c04-debug-late', 'C04', 'core.py',
+  "        if glom_debug:\n            raise\n        if isinstance(e, GlomError):",
+  "        if isinstance(e, GlomError) and glom_debug:\n            raise\n        if isinstance(e, GlomError):",
+  "glom_debug only applies to GlomErrors")
+M('c04-default-argval', 'C04', 'core.py',
+  "            ret = default  # should this also be arg_val'd?",
+  "            ret = arg_val(target, default, scope)  # should this also be arg_val'd?",
+  "the default is evaluated instead of returned as is")
+M('c04-skipexc-glomerror', 'C04', 'core.py',
+  "    skip_exc = kwargs.pop('skip_exc', () if default is _MISSING else GlomError)",
+  "    skip_exc = kwargs.pop('skip_exc', GlomError)",
+  "errors are filtered even without a default")
+M('c04-typematch-nocopy', 'C04', 'matching.py',
+  "    def __copy__(self):\n        # __init__ args = (actual, expected)\n        # self.args = (fmt_str, expected, actual)\n        return TypeMatchError(self.args[2], self.args[1])\n",
+  "",
+  "TypeMatchError loses its __copy__ (copy.copy re-runs __init__ with the wrong args)")
+M('c04-copy-swapped', 'C04', 'matching.py',
+  "        return TypeMatchError(self.args[2], self.args[1])",
+  "        return TypeMatchError(self.args[1], self.args[2])",
+  "TypeMatchError.__copy__ swaps actual and expected")
+M('c04-wrap-bases', 'C04', 'core.py',
+  "        bases = (GlomError,) if issubclass(GlomError, exc_type) else (exc_type, GlomError)",
+  "        bases = (GlomError,) if issubclass(exc_type, Exception) else (exc_type, GlomError)",
+  "wrapped exceptions lose their original class")
+M('c04-wrap-reraise', 'C04', 'core.py',
+  "        except Exception:  # maybe exception can't be re-created\n            return exc",
+  "        except TypeError:  # maybe exception can't be re-created\n            return exc",
+  "wrap() lets non-TypeError constructor failures escape")
+M('c04-copy-unguarded', 'C04', 'core.py',
+  "            try:\n                err = copy.copy(e)\n            except Exception:  # maybe exception can't be re-created\n                err = e\n",
+  "            err = copy.copy(e)\n",
+  "the copy of a GlomError is unguarded again")
+M('c04-err-truth', 'C04', 'core.py',
+  "    if err is not None:\n        raise err",
+  "    if err:\n        raise err",
+  "the pending error is tested by truth value")
+M('c04-unregistered-kw', 'C04', 'core.py',
+  "        self.path = path\n        super().__init__(op, target_type, type_map, path)",
+  "        self.path = path\n        super().__init__(op, target_type)",
+  "UnregisteredTarget forwards only two of its four arguments to BaseException")
+
+# --------------------------------------------------------------------------- C05
+M('c05-link-late', 'C05', 'core.py',
+  "    pmap[LAST_CHILD_SCOPE] = scope\n\n    try:\n        if type(spec) is TType:  # must go first, due to callability",
+  "    try:\n        if type(spec) is TType:  # must go first, due to callability",
+  "the parent no longer records its last child")
+M('c05-no-cur-error', 'C05', 'core.py',
+  "        scope.maps[1][CHILD_ERRORS].append(scope)\n        scope.maps[0][CUR_ERROR] = e\n",
+  "        scope.maps[1][CHILD_ERRORS].append(scope)\n",
+  "failing frames no longer record their error")
+M('c05-append-own', 'C05', 'core.py',
+  "        scope.maps[1][CHILD_ERRORS].append(scope)",
+  "        scope.maps[0][CHILD_ERRORS].append(scope)",
+  "the failing frame is appended to its own error list")
+M('c05-recycle-noclear', 'C05', 'core.py',
+  "    del nxt_in_chain.maps[0][CHILD_ERRORS][:]\n",
+  "",
+  "recycled frames keep their forgiven branches")
+M('c05-coalesce-chained', ['C05', 'C07'], 'core.py',
+  "                ret = scope[glom](target, subspec, scope)\n                if not self.skip_func(ret):",
+  "                ret = scope[glom](target, subspec, chain_child(scope))\n                if not self.skip_func(ret):",
+  "Coalesce branches are evaluated in a chained frame")
+M('c05-frame-nospec', 'C05', 'core.py',
+  "        T: target,\n        Spec: spec,\n        UP: parent,",
+  "        T: target,\n        UP: parent,",
+  "frames no longer carry their spec")
+M('c05-stack-slot', 'C05', 'core.py',
+  "        if cur[3] == nxt[3]:\n            cur[3] = None",
+  "        if cur[3] == nxt[3]:\n            cur[2] = None",
+  "error push-down clears the wrong slot")
+M('c05-linear-len', 'C05', 'core.py',
+  "        if branches == [child]:",
+  "        if len(branches) == 1:",
+  "any single recorded branch counts as linear")
+
+# --------------------------------------------------------------------------- C06
+M('c06-sort-target', ['C06'], 'core.py',
+  "    ret = []\n    base_path = scope[Path]\n    for i, t in enumerate(iterator):",
+  "    ret = []\n    target.sort()\n    base_path = scope[Path]\n    for i, t in enumerate(iterator):",
+  "list specs sort their target in place")
+M('c06-match-setdefault', ['C06', 'C09'], 'matching.py',
+  "    for key in set(defaults) - set(result):\n        result[key] = arg_val(target, defaults[key], scope)",
+  "    for key in set(defaults) - set(result):\n        result[key] = target.setdefault(key, arg_val(target, defaults[key], scope))",
+  "Optional defaults are written into the target")
+M('c06-cache-onepart', 'C06', 'core.py',
+  "        cache = cls._CACHE[PATH_STAR]  # remove this when PATH_STAR is default",
+  "        cache = cls._CACHE[True]  # remove this when PATH_STAR is default",
+  "the path memo ignores PATH_STAR")
+M('c06-cache-key-strip', 'C06', 'core.py',
+  "            cache[text] = create()\n        return cache[text]",
+  "            cache[text.strip()] = create()\n        return cache[text.strip()]",
+  "the path memo is keyed by a normalised text")
+M('c06-mutable-default', ['C06', 'C20'], 'core.py',
+  "def _extend_children(children, item, get_handler):",
+  "def _extend_children(children, item, get_handler, _seen=[]):",
+  "a mutable default argument")
+M('c06-spec-memo', ['C06', 'C17'], 'core.py',
+  "    def glomit(self, target, scope):\n        subspec = self.subspec\n        scope_key = (Ref, self.name)",
+  "    def glomit(self, target, scope):\n        self.last_target = target\n        subspec = self.subspec\n        scope_key = (Ref, self.name)",
+  "a spec stores evaluation data on itself")
+M('c06-module-valuator', ['C06', 'C02', 'C20'], 'core.py',
+  "    scope[MIN_MODE] = _ArgValuator().mode",
+  "    scope[MIN_MODE] = _ARGV.mode",
+  "a shared argument valuator (free name; compiles)")
+M('c06-global-counter', ['C06', 'C20'], 'core.py',
+  "def _glom(target, spec, scope):\n    parent = scope",
+  "_CALLS = []\n\n\ndef _glom(target, spec, scope):\n    _CALLS.append(spec)\n    parent = scope",
+  "the evaluator appends to a module-level list")
+
+# --------------------------------------------------------------------------- C07
+M('c07-let-up', 'C07', 'core.py',
+  "    def glomit(self, target, scope):\n        scope.update({\n            k: scope[glom](target, v, scope) for k, v in self._binding.items()})\n        return target",
+  "    def glomit(self, target, scope):\n        scope[UP].update({\n            k: scope[glom](target, v, scope) for k, v in self._binding.items()})\n        return target",
+  "Let binds in the parent frame")
+M('c07-scope-adopt', ['C07', 'C20'], 'core.py',
+  "    scope.update(kwargs.pop('scope', {}))\n    err = None",
+  "    scope = scope.new_child(kwargs.pop('scope', {}))\n    err = None",
+  "the caller's scope mapping becomes a frame map")
+M('c07-globals-shared', ['C07', 'C20'], 'core.py',
+  "        'globals': ScopeVars({}, {}),",
+  "        'globals': _GLOBALS,",
+  "S.globals is a shared object")
+M('c07-vars-retain', 'C07', 'core.py',
+  "    def __init__(self, base, defaults):\n        self.__dict__ = dict(base)",
+  "    def __init__(self, base, defaults):\n        self.__dict__ = base",
+  "ScopeVars adopts the mapping it is given")
+M('c07-dict-chained', 'C07', 'core.py',
+  "        val = scope[glom](target, subspec, scope)\n        if val is SKIP:\n            continue\n        if type(field) in (Spec, TType):",
+  "        val = scope[glom](target, subspec, chain_child(scope))\n        if val is SKIP:\n            continue\n        if type(field) in (Spec, TType):",
+  "dict values chain their scopes (bindings leak between siblings)")
+M('c07-tuple-nochain', 'C07', 'core.py',
+  "    for subspec in spec:\n        scope = chain_child(scope)\n        nxt = scope[glom](res, subspec, scope)",
+  "    for subspec in spec:\n        nxt = scope[glom](res, subspec, scope)",
+  "tuple steps no longer chain their scopes")
+M('c07-ref-after', 'C07', 'core.py',
+  "        else:\n            scope[scope_key] = subspec\n        return scope[glom](target, subspec, scope)",
+  "        ret = scope[glom](target, subspec, scope)\n        if self.subspec is not _MISSING:\n            scope[scope_key] = subspec\n        return ret",
+  "Ref binds after evaluating")
+M('c07-s-assign-returns-scope', 'C07', 'core.py',
+  "            scope.update({\n                k: arg_val(target, v, scope) for k, v in kwargs.items()})\n            return target",
+  "            scope.update({\n                k: arg_val(target, v, scope) for k, v in kwargs.items()})\n            return scope",
+  "S(...) returns the scope instead of the target")
+M('c07-chain-descend', ['C07', 'C05'], 'core.py',
+  "    nxt_in_chain = scope[LAST_CHILD_SCOPE]\n",
+  "    nxt_in_chain = scope[LAST_CHILD_SCOPE]\n    while LAST_CHILD_SCOPE in nxt_in_chain.maps[0]:\n        nxt_in_chain = nxt_in_chain[LAST_CHILD_SCOPE]\n",
+  "chain_child drills down to the deepest descendant")
+
+# --------------------------------------------------------------------------- C08
+M('c08-fill-late', 'C08', 'core.py',
+  "    def glomit(self, target, scope):\n        scope[MODE] = FILL\n        return scope[glom](target, self.spec, scope)",
+  "    def glomit(self, target, scope):\n        ret = scope[glom](target, self.spec, scope)\n        scope[MODE] = FILL\n        return ret",
+  "Fill sets its mode after evaluating")
+M('c08-noreset', ['C08', 'C03'], 'core.py',
+  "    nxt_in_chain.maps[0][MODE] = scope[MODE]\n",
+  "",
+  "the recycled frame keeps the previous step's mode")
+M('c08-child-mode-lookup', 'C08', 'core.py',
+  "        MODE: pmap[MODE],\n        MIN_MODE: pmap[MIN_MODE],",
+  "        MODE: pmap[MODE],\n        MIN_MODE: None,",
+  "children no longer inherit argument mode")
+M('c08-norestore', ['C08', 'C02', 'C03'], 'core.py',
+  "    result = scope[glom](target, arg, scope)\n    scope[MIN_MODE] = mode\n    return result",
+  "    result = scope[glom](target, arg, scope)\n    return result",
+  "argument mode is never restored")
+M('c08-fill-noset', 'C08', 'core.py',
+  "    if type(spec) in (list, tuple, set, frozenset):\n        result = [recurse(val) for val in spec]",
+  "    if type(spec) in (list, tuple, set):\n        result = [recurse(val) for val in spec]",
+  "Fill no longer rebuilds frozensets")
+M('c08-memo-late', ['C08', 'C02'], 'core.py',
+  "            result = self.cache[id(spec)] = type(spec)()\n            if type(spec) is dict:\n                result.update({recur(key): recur(val) for key, val in spec.items()})\n            else:\n                result.extend([recur(val) for val in spec])",
+  "            result = type(spec)()\n            if type(spec) is dict:\n                result.update({recur(key): recur(val) for key, val in spec.items()})\n            else:\n                result.extend([recur(val) for val in spec])\n            self.cache[id(spec)] = result",
+  "the cycle memo is stored after recursing")
+M('c08-group-mode-auto', ['C08', 'C16'], 'grouping.py',
+  "        scope[MODE] = GROUP\n        scope[CUR_AGG] = None  # reset aggregation tripwire for sub-specs",
+  "        scope[UP][MODE] = GROUP\n        scope[CUR_AGG] = None  # reset aggregation tripwire for sub-specs",
+  "Group installs its mode in the parent frame")
+
+# --------------------------------------------------------------------------- C09
+M('c09-type-matcherror', 'C09', 'matching.py',
+  "        if not isinstance(target, spec):\n            raise TypeMatchError(type(target), spec)",
+  "        if not isinstance(target, spec):\n            raise MatchError('{0!r} is not a {1!r}', target, spec)",
+  "type rules raise plain MatchError")
+M('c09-tuple-valueerror', 'C09', 'matching.py',
+  "        if len(target) != len(spec):\n            raise MatchError(\"{0!r} does not match {1!r}\", target, spec)",
+  "        if len(target) != len(spec):\n            raise ValueError('length mismatch')",
+  "tuple length mismatch raises ValueError")
+M('c09-matches-exception', 'C09', 'matching.py',
+  "        try:\n            glom(target, self)\n        except GlomError:\n            return False\n        return True",
+  "        try:\n            glom(target, self)\n        except Exception:\n            return False\n        return True",
+  "matches() swallows every exception")
+M('c09-default-matcherror-only', 'C09', 'matching.py',
+  "            ret = scope[glom](target, self.spec, scope)\n        except GlomError:\n            if self.default is _MISSING:",
+  "            ret = scope[glom](target, self.spec, scope)\n        except MatchError:\n            if self.default is _MISSING:",
+  "Match(default=) only catches MatchError")
+M('c09-dict-nobreak', 'C09', 'matching.py',
+  "                required.discard(maybe_spec_key)\n                break\n",
+  "                required.discard(maybe_spec_key)\n",
+  "dict matching keeps trying spec keys after a match")
+C('ctl-required-early', 'C09', 'matching.py',
+  "                result[key] = scope[glom](val, spec[maybe_spec_key], chain_child(scope))\n                required.discard(maybe_spec_key)",
+  "                required.discard(maybe_spec_key)\n                result[key] = scope[glom](val, spec[maybe_spec_key], chain_child(scope))",
+  "(benign reorder inside the success path) -- control, must stay silent")
+M('c09-zip-swap', 'C09', 'matching.py',
+  "        for sub_target, sub_spec in zip(target, spec):\n            result.append(scope[glom](sub_target, sub_spec, scope))",
+  "        for sub_target, sub_spec in zip(spec, target):\n            result.append(scope[glom](sub_target, sub_spec, scope))",
+  "tuple matching swaps items and patterns")
+M('c09-optional-required', 'C09', 'matching.py',
+  "        if _precedence(key) == 0 and type(key) is not Optional\n        or type(key) is Required}",
+  "        if _precedence(key) == 0\n        or type(key) is Required}",
+  "Optional keys become required")
+M('c09-return-spec', 'C09', 'matching.py',
+  "    elif target != spec:\n        raise MatchError(\"{0!r} does not match {1!r}\", target, spec)\n    return target",
+  "    elif target != spec:\n        raise MatchError(\"{0!r} does not match {1!r}\", target, spec)\n    return spec",
+  "an equality match returns the pattern instead of the target")
+
+# --------------------------------------------------------------------------- C10
+M('c10-ge-gt', 'C10', 'matching.py',
+  "            (op == 'g' and lhs >= rhs) or",
+  "            (op == 'g' and lhs > rhs) or",
+  ">= is decided by >")
+M('c10-le-code', 'C10', 'matching.py',
+  "    def __le__(self, other):\n        return _MExpr(self, 'l', other)\n\n    def __repr__(self):\n        return f'M({bbrepr(self.spec)})'",
+  "    def __le__(self, other):\n        return _MExpr(self, '<', other)\n\n    def __repr__(self):\n        return f'M({bbrepr(self.spec)})'",
+  "M(...) <= records the code of <")
+M('c10-operands-swapped', 'C10', 'matching.py',
+  "            (op == '<' and lhs < rhs) or",
+  "            (op == '<' and rhs < lhs) or",
+  "< compares rhs with lhs")
+M('c10-and-first', 'C10', 'matching.py',
+  "        for child in self.children:\n            result = scope[glom](target, child, scope)\n        return result",
+  "        for child in self.children:\n            result = scope[glom](target, child, scope)\n            break\n        return result",
+  "And stops after its first child")
+M('c10-or-continue', 'C10', 'matching.py',
+  "            try:  # one child must match without exception\n                return scope[glom](target, child, scope)\n            except GlomError:\n                pass",
+  "            try:  # one child must match without exception\n                ret = scope[glom](target, child, scope)\n            except GlomError:\n                pass",
+  "Or evaluates later children after a success")
+M('c10-not-glomerror', 'C10', 'matching.py',
+  "            raise MatchError(\"child shouldn't have passed: {0!r}\", self.child)",
+  "            raise GlomError(\"child shouldn't have passed\", self.child)",
+  "Not rejects with a bare GlomError again")
+M('c10-switch-default-first', 'C10', 'matching.py',
+  "    def glomit(self, target, scope):\n        for keyspec, valspec in self.cases:",
+  "    def glomit(self, target, scope):\n        if self.default is not _MISSING and not self.cases[0]:\n            return arg_val(target, self.default, scope)\n        for keyspec, valspec in self.cases:",
+  "Switch consults its default before trying the cases")
+M('c10-check-instance-dropped', 'C10', 'matching.py',
+  "        if self.instance_of and not isinstance(target, self.instance_of):",
+  "        if False and self.instance_of and not isinstance(target, self.instance_of):",
+  "Check ignores instance_of")
+M('c10-bool-default-any', 'C10', 'matching.py',
+  "            return self._glomit(target, scope)\n        except GlomError:\n            if self.default is not _MISSING:",
+  "            return self._glomit(target, scope)\n        except Exception:\n            if self.default is not _MISSING:",
+  "And/Or defaults swallow every exception")
+M('c10-invert-and', 'C10', 'matching.py',
+  "    def __invert__(self):\n        return Not(self)\n\n    def glomit(self, target, scope):\n        lhs, op, rhs = self.lhs, self.op, self.rhs",
+  "    def __invert__(self):\n        return And(self)\n\n    def glomit(self, target, scope):\n        lhs, op, rhs = self.lhs, self.op, self.rhs",
+  "~(M == x) builds And instead of Not")
+
+# --------------------------------------------------------------------------- C11
+M('c11-write-first', 'C11', 'mutation.py',
+  "            remaining_path = self._orig_path[pae.part_idx + 1:]\n            val = scope[glom](self.missing(), Assign(remaining_path, val, missing=self.missing), scope)\n\n            op, arg = self._orig_path.items()[pae.part_idx]\n            path = self._orig_path[:pae.part_idx]\n            dest = scope[glom](dest_target, path, scope)",
+  "            op, arg = self._orig_path.items()[pae.part_idx]\n            path = self._orig_path[:pae.part_idx]\n            dest = scope[glom](dest_target, path, scope)\n            _assign_op(dest=dest, op=op, arg=arg, val=self.missing(), path=path, scope=scope)\n            remaining_path = self._orig_path[pae.part_idx + 1:]\n            val = scope[glom](self.missing(), Assign(remaining_path, val, missing=self.missing), scope)",
+  "the missing container is attached before its tail is built")
+M('c11-tail-in-target', 'C11', 'mutation.py',
+  "            val = scope[glom](self.missing(), Assign(remaining_path, val, missing=self.missing), scope)",
+  "            val = scope[glom](dest_target, Assign(remaining_path, val, missing=self.missing), scope)",
+  "the tail is assigned into the target instead of a fresh factory object")
+M('c11-tail-off', 'C11', 'mutation.py',
+  "            remaining_path = self._orig_path[pae.part_idx + 1:]",
+  "            remaining_path = self._orig_path[pae.part_idx:]",
+  "the tail repeats the failing segment")
+M('c11-return-dest', 'C11', 'mutation.py',
+  "        _apply_for_each(_apply, path, dest)\n\n        return target",
+  "        _apply_for_each(_apply, path, dest)\n\n        return dest",
+  "Assign returns the parent container")
+M('c11-swallow', 'C11', 'mutation.py',
+  "        _apply_for_each(_apply, path, dest)\n\n        return target",
+  "        try:\n            _apply_for_each(_apply, path, dest)\n        except PathAssignError:\n            pass\n\n        return target",
+  "assignment failures are swallowed")
+M('c11-p-nocatch', 'C11', 'core.py',
+  "            _assign(dest, arg, val)\n        except Exception as e:\n            raise PathAssignError(e, path, arg)",
+  "            _assign(dest, arg, val)\n        except (KeyError, IndexError) as e:\n            raise PathAssignError(e, path, arg)",
+  "handler failures other than lookup errors escape unconverted")
+M('c11-setattr-item', 'C11', 'core.py',
+  "    elif op == '.':\n        setattr(dest, arg, val)",
+  "    elif op == '.':\n        dest[arg] = val",
+  "attribute assignment stores an item")
+M('c11-flatten-all', ['C11', 'C14'], 'mutation.py',
+  "        for i in range(layers - 1):\n            val = sum(val, [])  # flatten out the extra layers",
+  "        for i in range(layers):\n            val = sum(val, [])  # flatten out the extra layers",
+  "wildcard broadcast flattens one level too many")
+M('c11-val-late', 'C11', 'mutation.py',
+  "        _apply = lambda dest: _assign_op(\n            dest=dest, op=op, arg=arg, val=val, path=path, scope=scope)",
+  "        _apply = lambda dest: _assign_op(\n            dest=dest, op=op, arg=arg, val=arg_val(target, self.val, scope), path=path, scope=scope)",
+  "the value is evaluated inside the write (per destination, after partial writes)")
+
+# --------------------------------------------------------------------------- C12
+M('c12-index-only', 'C12', 'mutation.py',
+  "            except (KeyError, IndexError) as e:",
+  "            except IndexError as e:",
+  "T[key] deletion leaks KeyError again")
+M('c12-attr-ignore', 'C12', 'mutation.py',
+  "            except AttributeError as e:\n                if not self.ignore_missing:\n                    raise PathDeleteError(e, self.path, arg)",
+  "            except AttributeError as e:\n                raise PathDeleteError(e, self.path, arg)",
+  "attribute deletion ignores ignore_missing")
+M('c12-parent-always-ignored', 'C12', 'mutation.py',
+  "        except PathAccessError as pae:\n            if not self.ignore_missing:\n                raise\n        else:",
+  "        except PathAccessError as pae:\n            pass\n        else:",
+  "a missing parent is always ignored")
+M('c12-delete-in-finally-path', 'C12', 'mutation.py',
+  "        else:\n            _apply_for_each(lambda dest: self._del_one(dest, op, arg, scope), path, dest)\n\n        return target",
+  "        else:\n            _apply_for_each(lambda dest: self._del_one(dest, op, arg, scope), path, dest)\n\n        return dest_target",
+  "Delete returns the fetch root (the scope for S paths)")
+M('c12-wrong-error', 'C12', 'mutation.py',
+  "            except Exception as e:\n                if not self.ignore_missing:\n                    raise PathDeleteError(e, self.path, arg)",
+  "            except Exception as e:\n                if not self.ignore_missing:\n                    raise PathAssignError(e, self.path, arg)",
+  "'P' deletion failures raise PathAssignError")
+M('c12-seq-noint', 'C12', 'mutation.py',
+  "def _del_sequence_item(target, idx):\n    del target[int(idx)]",
+  "def _del_sequence_item(target, idx):\n    del target[idx]",
+  "sequence deletion does not coerce the index")
+
+# --------------------------------------------------------------------------- C13
+M('c13-noreset', ['C13', 'C06'], 'core.py',
+  "        self._type_cache = {}  # reset type cache\n\n        return\n",
+  "        return\n",
+  "register() no longer resets the lookup memo")
+C('ctl-reset-early', ['C13', 'C06'], 'core.py',
+  "        new_op_map = dict(kwargs)\n\n        for op_name in sorted(set(self._op_auto_map.keys()) | set(new_op_map.keys())):",
+  "        new_op_map = dict(kwargs)\n        self._type_cache = {}\n\n        for op_name in sorted(set(self._op_auto_map.keys()) | set(new_op_map.keys())):",
+  "(additional early reset) -- control, must stay silent")
+M('c13-key-noop', ['C13', 'C06'], 'core.py',
+  "        cache_key = (obj_type, op)",
+  "        cache_key = (obj_type, 'get')",
+  "the memo key forgets the op")
+M('c13-fuzzy-first', 'C13', 'core.py',
+  "                try:\n                    ret = type_map[obj_type]\n                except KeyError:\n                    type_tree = self._op_type_tree.get(op, {})\n                    closest = self._get_closest_type(obj, type_tree=type_tree)\n                    if closest is None:\n                        ret = False\n                    else:\n                        ret = type_map[closest]",
+  "                type_tree = self._op_type_tree.get(op, {})\n                closest = self._get_closest_type(obj, type_tree=type_tree)\n                if closest is None:\n                    ret = type_map.get(obj_type, False)\n                else:\n                    ret = type_map[closest]",
+  "the tree walk comes before the exact lookup")
+M('c13-glommer-shared-registry', ['C13', 'C20'], 'core.py',
+  "        self.scope[TargetRegistry] = TargetRegistry(register_default_types=register_default_types)",
+  "        self.scope[TargetRegistry] = scope[TargetRegistry]",
+  "Glommer shares the registry of the scope it was given")
+M('c13-glommer-noscopecopy', 'C13', 'core.py',
+  "        self.scope = ChainMap(dict(scope))",
+  "        self.scope = scope",
+  "Glommer binds its registry in the default scope itself")
+M('c13-ancestor-wins', 'C13', 'core.py',
+  "                ret = cur_type if sub_type is None else sub_type\n                return ret",
+  "                ret = cur_type\n                return ret",
+  "a matching ancestor wins over a more specific registered type")
+M('c13-class-level-maps', ['C13', 'C06'], 'core.py',
+  "    def __init__(self, register_default_types=True):\n        self._op_type_map = {}",
+  "    _op_type_map = {}\n\n    def __init__(self, register_default_types=True):",
+  "the handler map is shared by all registries (class attribute)")
+M('c13-exact-in-tree', 'C13', 'core.py',
+  "        if not exact:\n            for op_name in new_op_map:\n                self._register_fuzzy_type(op_name, target_type)",
+  "        for op_name in new_op_map:\n            self._register_fuzzy_type(op_name, target_type)",
+  "exact registrations also cover subclasses")
+
+# --------------------------------------------------------------------------- C14
+M('c14-noseed', 'C14', 'core.py',
+  "                sofar = {id(cur)}",
+  "                sofar = set()",
+  "the ** root is not recorded as visited")
+M('c14-noguard', 'C14', 'core.py',
+  "                    if id(item) not in sofar:\n                        sofar.add(id(item))\n                        _extend_children(nxt, item, get_handler)",
+  "                    sofar.add(id(item))\n                    _extend_children(nxt, item, get_handler)",
+  "** expands every item regardless of the visited set")
+M('c14-reraise', 'C14', 'core.py',
+  "                    cur.append(_t_eval(child, todo, scope))\n                except PathAccessError:\n                    pass",
+  "                    cur.append(_t_eval(child, todo, scope))\n                except PathAccessError:\n                    raise",
+  "a failing entry aborts the wildcard")
+M('c14-stars-x-only', 'C14', 'core.py',
+  "        return t_ops.count('x') + t_ops.count('X')",
+  "        return t_ops.count('x')",
+  "__stars__ does not count **")
+M('c14-nobreak', 'C14', 'core.py',
+  "                except PathAccessError:\n                    pass\n            break  # we handled the rest in recursive call, break loop",
+  "                except PathAccessError:\n                    pass\n            # we handled the rest in recursive call",
+  "the interpreter keeps going after delegating the remaining steps")
+M('c14-dfs', 'C14', 'core.py',
+  "                nxt.insert(0, cur)",
+  "                nxt.append(cur)",
+  "** lists the value itself last")
+M('c14-children-raise', 'C14', 'core.py',
+  "                try:\n                    children.append(get(item, key))\n                except Exception:\n                    pass",
+  "                children.append(get(item, key))",
+  "a failing child access is no longer skipped per key")
+
+# --------------------------------------------------------------------------- C15
+M('c15-init-cached', ['C15', 'C06'], 'reduction.py',
+  "        ret, op = self.init(), self.op\n\n        for v in iterator:\n            ret = op(ret, v)",
+  "        ret, op = self._init_val, self.op\n\n        for v in iterator:\n            ret = op(ret, v)",
+  "Fold starts from a value cached on the spec")
+M('c15-first-elem', 'C15', 'reduction.py',
+  "        ret, op = self.init(), self.op\n\n        for v in iterator:\n            ret = op(ret, v)",
+  "        ret, op = next(iterator, None), self.op\n\n        for v in iterator:\n            ret = op(ret, v)",
+  "Fold uses the first element as accumulator (iadd mutates it)")
+M('c15-folderror', 'C15', 'reduction.py',
+  "        except UnregisteredTarget as ut:\n            raise FoldError(",
+  "        except UnregisteredTarget as ut:\n            raise TypeError(",
+  "a non-iterable target raises TypeError")
+M('c15-lazy-list', 'C15', 'reduction.py',
+  "            return itertools.chain.from_iterable(iterator)",
+  "            return list(itertools.chain.from_iterable(iterator))",
+  "lazy Flatten materialises")
+M('c15-levels', 'C15', 'reduction.py',
+  "    spec += (Flatten(init=\"lazy\"),) * (levels - 1)",
+  "    spec += (Flatten(init=\"lazy\"),) * levels",
+  "flatten(levels=n) flattens n+1 levels")
+M('c15-agg-shared', ['C15', 'C16'], 'reduction.py',
+  "        if self not in tree:\n            tree[self] = self.init()\n        tree[self] = self.op(tree[self], target)\n        return tree[self]",
+  "        if self not in tree:\n            tree[self] = self.init()\n        tree[self] = self.op(tree[self], target)\n        self.last = tree[self]\n        return tree[self]",
+  "an aggregating Fold keeps state on the spec")
+
+# --------------------------------------------------------------------------- C16
+M('c16-tree-ctor', ['C16', 'C06'], 'grouping.py',
+  "    def __init__(self, spec):\n        self.spec = spec\n\n    def glomit(self, target, scope):\n        scope[MODE] = GROUP\n        scope[CUR_AGG] = None  # reset aggregation tripwire for sub-specs\n        scope[ACC_TREE] = {}",
+  "    def __init__(self, spec):\n        self.spec = spec\n        self._tree = {}\n\n    def glomit(self, target, scope):\n        scope[MODE] = GROUP\n        scope[CUR_AGG] = None  # reset aggregation tripwire for sub-specs\n        scope[ACC_TREE] = self._tree",
+  "the accumulator tree lives on the Group spec")
+M('c16-skip-stored', 'C16', 'grouping.py',
+  "            if result is not SKIP:\n                acc[key] = result",
+  "            acc[key] = result",
+  "SKIP results are stored in buckets")
+M('c16-list-skip', 'C16', 'grouping.py',
+  "            if result is not SKIP:\n                acc.append(result)",
+  "            acc.append(result)",
+  "SKIP results are appended to leaf lists")
+M('c16-max-min', 'C16', 'grouping.py',
+  "        if self not in tree or target > tree[self]:\n            tree[self] = target\n        return tree[self]",
+  "        if self not in tree or target < tree[self]:\n            tree[self] = target\n        return tree[self]",
+  "Max keeps the smaller item")
+M('c16-first-self', ['C16', 'C06'], 'grouping.py',
+  "        if self not in tree:\n            tree[self] = STOP\n            return target\n        return STOP",
+  "        if not getattr(self, '_seen', False):\n            self._seen = True\n            return target\n        return STOP",
+  "First keeps its state on the spec (needs a slot; compiles)")
+M('c16-key-truthy', 'C16', 'grouping.py',
+  "            if key not in acc:",
+  "            if not acc.get(key):",
+  "bucket sub-trees are recreated whenever the aggregate is falsy")
+M('c16-limit-ge', 'C16', 'grouping.py',
+  "        if tree[self][0] > self.n:",
+  "        if tree[self][0] >= self.n:",
+  "Limit(n) stops one item early")
+
+# --------------------------------------------------------------------------- C17
+M('c17-nosentinel', 'C17', 'streaming.py',
+  "        return type(self)(subspec=self.subspec, sentinel=self.sentinel,\n                          _iter_stack=",
+  "        return type(self)(subspec=self.subspec,\n                          _iter_stack=",
+  "chained Iter methods drop the sentinel again")
+M('c17-append-inplace', ['C17', 'C06'], 'streaming.py',
+  "        return type(self)(subspec=self.subspec, sentinel=self.sentinel,\n                          _iter_stack=[(opname, args, callback)] + self._iter_stack)",
+  "        self._iter_stack.insert(0, (opname, args, callback))\n        return type(self)(subspec=self.subspec, sentinel=self.sentinel,\n                          _iter_stack=self._iter_stack)",
+  "chaining mutates the stage list of the original Iter")
+M('c17-forward-fold', 'C17', 'streaming.py',
+  "        for _, _, callback in reversed(self._iter_stack):\n            iterator = callback(iterator, scope)",
+  "        for _, _, callback in self._iter_stack:\n            iterator = callback(iterator, scope)",
+  "stages are applied in reverse chaining order")
+M('c17-map-list', 'C17', 'streaming.py',
+  "            lambda iterable, scope: imap(\n                lambda t: scope[glom](t, subspec, scope), iterable))",
+  "            lambda iterable, scope: list(imap(\n                lambda t: scope[glom](t, subspec, scope), iterable)))",
+  "map materialises the stream")
+M('c17-takewhile-drop', 'C17', 'streaming.py',
+  "            lambda it, scope: takewhile(\n                lambda t: scope[glom](t, key, scope), it))",
+  "            lambda it, scope: dropwhile(\n                lambda t: scope[glom](t, key, scope), it))",
+  "takewhile is implemented with dropwhile")
+M('c17-sentinel-ignored', 'C17', 'streaming.py',
+  "            elif yld is self.sentinel or yld is STOP:",
+  "            elif yld is STOP:",
+  "the configured sentinel is ignored")
+M('c17-iterate-eager', 'C17', 'streaming.py',
+  "        base_path = scope[Path]\n        for i, t in enumerate(iterator):\n            scope[Path] = base_path + [i]\n            yld =",
+  "        base_path = scope[Path]\n        for i, t in enumerate(list(iterator)):\n            scope[Path] = base_path + [i]\n            yld =",
+  "the base iteration materialises its source")
+M('c17-invoke-alias', ['C17', 'C03', 'C06'], 'core.py',
+  "        ret._args = self._args + ('S', a, kw)\n        ret._cur_kwargs = dict(self._cur_kwargs)",
+  "        ret._args = self._args + ('S', a, kw)\n        ret._cur_kwargs = self._cur_kwargs",
+  "Invoke.specs aliases the parent's keyword registry")
+M('c17-all-list', 'C17', 'streaming.py',
+  "        return Pipe(self, list)",
+  "        return Pipe(self, tuple)",
+  "all() builds a tuple")
+
+# --------------------------------------------------------------------------- C18
+M('c18-guard-gt', 'C18', 'core.py',
+  "            if start < 0 or start >= len(cur_t_path):",
+  "            if start < 0 or start > len(cur_t_path):",
+  "Path[len] is accepted again")
+M('c18-guard-lower', 'C18', 'core.py',
+  "            if start < 0 or start >= len(cur_t_path):",
+  "            if start < -1 or start >= len(cur_t_path):",
+  "Path[-len-1] is accepted")
+M('c18-root-table', 'C18', 'core.py',
+  "        self.__ops__ = ({'T': T, 'S': S, 'A': A}[state[0]],) + state[1:]",
+  "        self.__ops__ = ({'T': T, 'S': S, 'A': S}[state[0]],) + state[1:]",
+  "unpickling maps A to S")
+M('c18-getstate-drop', 'C18', 'core.py',
+  "        return tuple(({T: 'T', S: 'S', A: 'A'}[t_path[0]],) + t_path[1:])",
+  "        return tuple(({T: 'T', S: 'S', A: 'A'}[t_path[0]],) + t_path[3:])",
+  "pickling drops the first step")
+M('c18-inplace-ops', 'C18', 'core.py',
+  "    def startswith(self, other):\n        if isinstance(other, basestring):\n            other = Path(other)",
+  "    def startswith(self, other):\n        if isinstance(other, basestring):\n            other = Path(other)\n            self.path_t.__ops__ = self.path_t.__ops__ + ()",
+  "a method rebinds the op tuple of an existing T")
+M('c18-format-star', ['C18', 'C14'], 'core.py',
+  "        elif op == 'X':\n            prepr.append(\".__starstar__()\")",
+  "        elif op == 'X':\n            prepr.append(\".__star__()\")",
+  "** is rendered as *")
+M('c18-slice-none', 'C18', 'core.py',
+  "    fmt = lambda v: \"\" if v is None else bbrepr(v)",
+  "    fmt = lambda v: bbrepr(v) if v else \"\"",
+  "a 0 slice bound vanishes from the repr")
+M('c18-eq-len', 'C18', 'core.py',
+  "        if type(other) is Path:\n            return self.path_t.__ops__ == other.path_t.__ops__",
+  "        if type(other) is Path:\n            return len(self.path_t.__ops__) == len(other.path_t.__ops__)",
+  "Paths of equal length compare equal")
+M('c18-from-t-drop', 'C18', 'core.py',
+  "            new_t.__ops__ = (T,) + t_path[1:]",
+  "            new_t.__ops__ = (T,) + t_path[3:]",
+  "from_t drops the first step")
+M('c18-stop-scale', 'C18', 'core.py',
+  "                stop = (stop * 2) + 1 if stop >= 0 else (stop * 2) + len(cur_t_path)",
+  "                stop = (stop * 2) if stop >= 0 else (stop * 2) + len(cur_t_path)",
+  "slice stops are scaled without the root offset")
+
+# --------------------------------------------------------------------------- C19
+M('c19-eval', 'C19', 'cli.py',
+  "        spec = ast.literal_eval(spec_text)",
+  "        spec = eval(spec_text)",
+  "default-format specs are evaluated")
+M('c19-fallback-full', 'C19', 'cli.py',
+  "    else:\n        raise UsageError('expected spec-format to be one of json, python, or python-full')",
+  "    else:\n        spec = _eval_python_full_spec(spec_text)",
+  "unknown spec formats fall back to python-full")
+M('c19-nosort', 'C19', 'cli.py',
+  "        print(json.dumps(result, indent=indent, sort_keys=True))",
+  "        print(json.dumps(result, indent=indent))",
+  "output keys are not sorted")
+M('c19-print-target', 'C19', 'cli.py',
+  "        print(json.dumps(result, indent=indent, sort_keys=True))",
+  "        print(json.dumps(target, indent=indent, sort_keys=True))",
+  "the CLI prints the target instead of the result")
+M('c19-exit0', 'C19', 'cli.py',
+  "        print(f'{ge.__class__.__name__}: {ge}')\n        return 1",
+  "        print(f'{ge.__class__.__name__}: {ge}')\n        return 0",
+  "GlomErrors exit with status 0")
+M('c19-yaml-load', 'C19', 'cli.py',
+  "            load_func = yaml.safe_load",
+  "            load_func = yaml.load",
+  "YAML targets are loaded unsafely")
+M('c19-loader-passthrough', 'C19', 'cli.py',
+  "    except Exception as e:\n        raise UsageError('could not load target data, got: %s: %s'\n                         % (e.__class__.__name__, e))",
+  "    except Exception as e:\n        target = {}",
+  "malformed targets become an empty object")
+M('c19-target-or', 'C19', 'cli.py',
+  "    return target\n\n\n@face_middleware",
+  "    return target or {}\n\n\n@face_middleware",
+  "falsy targets are replaced by {}")
+
+# --------------------------------------------------------------------------- C20
+M('c20-current-call', ['C20', 'C06'], 'core.py',
+  "    scope[T] = target\n    scope.update(kwargs.pop('scope', {}))",
+  "    scope[T] = target\n    _DEFAULT_SCOPE['current_target'] = target\n    scope.update(kwargs.pop('scope', {}))",
+  "glom() records the current target in the default scope")
+M('c20-cache-evict', ['C20', 'C06'], 'core.py',
+  "            if len(cache) > cls._MAX_CACHE:\n                return create()",
+  "            if len(cache) > cls._MAX_CACHE:\n                cache.clear()",
+  "the path memo is cleared on overflow")
+M('c20-register-on-lookup', ['C20', 'C13'], 'core.py',
+  "                    closest = self._get_closest_type(obj, type_tree=type_tree)\n                    if closest is None:\n                        ret = False",
+  "                    closest = self._get_closest_type(obj, type_tree=type_tree)\n                    if closest is None:\n                        self.register(obj_type)\n                        ret = False",
+  "a failed lookup registers the type (rebinding the memo during evaluation)")
+M('c20-root-shared', ['C20', 'C07'], 'core.py',
+  "        CHILD_ERRORS: [],\n        'globals': ScopeVars({}, {}),",
+  "        CHILD_ERRORS: _ROOT_ERRORS,\n        'globals': ScopeVars({}, {}),",
+  "all calls share one root error list")
+M('c20-finalize-global', ['C20'], 'core.py',
+  "        self._scope = scope\n\n    def __str__(self):",
+  "        self._scope = scope\n        GlomError._last_scope = scope\n\n    def __str__(self):",
+  "finalisation records the failing frame on the class")
+
+
+# --------------------------------------------------------------------------- more controls
+C('ctl-idx-minus1', ['C01', 'C02'], 'core.py',
+  "            except AttributeError as e:\n                pae = PathAccessError(e, Path(_t), i // 2)",
+  "            except AttributeError as e:\n                pae = PathAccessError(e, Path(_t), (i - 1) // 2)",
+  "(i-1)//2 is the same segment index")
+C('ctl-idx-shift', ['C01', 'C02'], 'core.py',
+  "            except (KeyError, IndexError, TypeError) as e:\n                pae = PathAccessError(e, Path(_t), i // 2)",
+  "            except (KeyError, IndexError, TypeError) as e:\n                pae = PathAccessError(e, Path(_t), i >> 1)",
+  "i >> 1 is the same segment index")
+C('ctl-raise-direct', ['C01', 'C02'], 'core.py',
+  "            except AttributeError as e:\n                pae = PathAccessError(e, Path(_t), i // 2)",
+  "            except AttributeError as e:\n                raise PathAccessError(e, Path(_t), i // 2)",
+  "raising directly in the handler")
+C('ctl-broader-handler', ['C01'], 'core.py',
+  "            except AttributeError as e:\n                pae = PathAccessError(e, Path(_t), i // 2)",
+  "            except (AttributeError, TypeError) as e:\n                pae = PathAccessError(e, Path(_t), i // 2)",
+  "catching more than the miss class")
+C('ctl-hoist-path', ['C01', 'C02'], 'core.py',
+  "    pae = None\n    while i < fetch_till:",
+  "    pae = None\n    _here = Path\n    while i < fetch_till:",
+  "an unrelated alias")
+C('ctl-message', ['C04', 'C09', 'C10'], 'matching.py',
+  "        raise MatchError(\"{0!r} not truthy\", target)",
+  "        raise MatchError(\"{0!r} is not a truthy value\", target)",
+  "a reworded message")
+C('ctl-guard-ge-plus', ['C18'], 'core.py',
+  "            if start < 0 or start >= len(cur_t_path):",
+  "            if start < 0 or start > len(cur_t_path) - 1:",
+  "an equivalent upper guard")
+C('ctl-guard-lower-1', ['C18'], 'core.py',
+  "            if start < 0 or start >= len(cur_t_path):",
+  "            if start < 1 or start >= len(cur_t_path):",
+  "an equivalent lower guard (start is odd)")
+C('ctl-isnot-none', ['C04'], 'core.py',
+  "    if err is not None:\n        raise err",
+  "    if not (err is None):\n        raise err",
+  "equivalent identity test -- tolerated only if recognised")
